@@ -1017,30 +1017,29 @@ class C16(Prop):
                 self.run_case(dict(case, via="clause"), acc)
 
     def run_case(self, case, acc):
-        if True:
-            v = judge(case)
-            acc.evaluations += 1
-            acc.states += 1
-            acc.transitions += v.steps
-            if v.outcome != "unparsable":
-                acc.traces += 1
-            if v.nontrivial and not v.unjudged:
-                acc.nontrivial += 1
-            acc.outcomes[v.outcome] += 1
-            acc.counters["cases:" + case["k"]] += 1
-            if v.unjudged:
-                for cat in v.unjudged.split(" | "):
-                    acc.counters["unjudged: " + cat] += 1
-                acc.counters["unjudged_cases"] += 1
-            acc.sample({"goal": v.text, "expected": v.expected, "observed": v.observed})
-            if v.symptom:
-                small = minimise(case, v.symptom)
-                sv = judge(small)
-                if sv.symptom != v.symptom:  # cannot happen: shrink keeps the symptom
-                    small, sv = case, v
-                acc.violation(v.symptom, small, expected=sv.expected, observed=sv.observed,
-                              what="%s   (e.g. %s)" % (sv.text, v.text) if sv.text != v.text else sv.text)
-            return v
+        v = judge(case)
+        acc.evaluations += 1
+        acc.states += 1
+        acc.transitions += v.steps
+        if v.outcome != "unparsable":
+            acc.traces += 1
+        if v.nontrivial and not v.unjudged:
+            acc.nontrivial += 1
+        acc.outcomes[v.outcome] += 1
+        acc.counters["cases:" + case["k"]] += 1
+        if v.unjudged:
+            for cat in v.unjudged.split(" | "):
+                acc.counters["unjudged: " + cat] += 1
+            acc.counters["unjudged_cases"] += 1
+        acc.sample({"goal": v.text, "expected": v.expected, "observed": v.observed})
+        if v.symptom:
+            small = minimise(case, v.symptom)
+            sv = judge(small)
+            if sv.symptom != v.symptom:  # cannot happen: shrink keeps the symptom
+                small, sv = case, v
+            acc.violation(v.symptom, small, expected=sv.expected, observed=sv.observed,
+                          what="%s   (e.g. %s)" % (sv.text, v.text) if sv.text != v.text else sv.text)
+        return v
 
     def replay(self, case):
         v = judge(case)
